@@ -60,7 +60,19 @@ func DoubleQuotesToBackTick(str string) (string, error) {
 				for ; i < len(str) && r != '"'; i++ {
 					r = rune(str[i])
 					if r == '"' {
+						if i+1 < len(str) && str[i+1] == '"' {
+							// a doubled quote stands for one quote character of the identifier
+							buffer.WriteRune('"')
+							i++
+							r = '0'
+							continue
+						}
 						buffer.WriteRune('`')
+						continue
+					}
+					if r == '`' {
+						// a back quote of the identifier has to be doubled in the back-quoted spelling
+						buffer.WriteString("``")
 						continue
 					}
 					if r == '\\' {
